@@ -83,6 +83,9 @@ func opSemExpected(kind, sym string) (opExpect, bool) {
 type opTermCtx struct {
 	leaf  func(v ssa.Value) string // "" = not a leaf
 	float bool                     // + and * commute
+	// liveEdge, when set, tells which incoming edges of a block can be taken under the case being read (a case shared
+	// by several constants tests the constant again inside): a phi with one live edge is that edge's value
+	liveEdge func(from, to *ssa.BasicBlock) bool
 }
 
 func (t *opTermCtx) term(v ssa.Value, depth int) string {
@@ -125,6 +128,17 @@ func (t *opTermCtx) term(v ssa.Value, depth int) string {
 			return "eq(" + t.term(x.Call.Value, depth-1) + "," + t.term(x.Call.Args[0], depth-1) + ")"
 		}
 	case *ssa.Phi:
+		if t.liveEdge != nil {
+			var live []ssa.Value
+			for i, pb := range x.Block().Preds {
+				if i < len(x.Edges) && t.liveEdge(pb, x.Block()) {
+					live = append(live, x.Edges[i])
+				}
+			}
+			if len(live) == 1 {
+				return t.term(live[0], depth-1)
+			}
+		}
 		if s := t.shortCircuit(x, depth); s != "" {
 			return s
 		}
@@ -183,9 +197,57 @@ func constCases(fn *ssa.Function, isTag func(ssa.Value) bool) map[int64]*ssa.Bas
 			continue
 		}
 		n, _ := constant.Int64Val(k.Value)
+		if prev, seen := out[n]; seen && (prev == b || prev.Dominates(b)) {
+			continue // a test of the same constant inside its own case (a case shared by several constants)
+		}
 		out[n] = b.Succs[0]
 	}
 	return out
+}
+
+// regionUnder: the blocks of the region of head that can be reached when the tag has the constant value k — tests of
+// the tag against a constant inside the region are decided. It also returns the edges that are taken.
+func regionUnder(head *ssa.BasicBlock, isTag func(ssa.Value) bool, k int64) ([]*ssa.BasicBlock, map[[2]*ssa.BasicBlock]bool) {
+	in := map[*ssa.BasicBlock]bool{}
+	for _, b := range regionOf(head) {
+		in[b] = true
+	}
+	edges := map[[2]*ssa.BasicBlock]bool{}
+	seen := map[*ssa.BasicBlock]bool{}
+	var out []*ssa.BasicBlock
+	var walk func(b *ssa.BasicBlock)
+	walk = func(b *ssa.BasicBlock) {
+		if seen[b] || !in[b] {
+			return
+		}
+		seen[b] = true
+		out = append(out, b)
+		succs := b.Succs
+		if len(b.Instrs) > 0 {
+			if ifi, ok := b.Instrs[len(b.Instrs)-1].(*ssa.If); ok {
+				if bo, ok := ifi.Cond.(*ssa.BinOp); ok && (bo.Op == token.EQL || bo.Op == token.NEQ) {
+					x, y := bo.X, bo.Y
+					if _, isConst := x.(*ssa.Const); isConst {
+						x, y = y, x
+					}
+					if kc, ok := y.(*ssa.Const); ok && kc.Value != nil && kc.Value.Kind() == constant.Int && isTag(x) {
+						n, _ := constant.Int64Val(kc.Value)
+						taken := 1
+						if (n == k) == (bo.Op == token.EQL) {
+							taken = 0
+						}
+						succs = []*ssa.BasicBlock{b.Succs[taken]}
+					}
+				}
+			}
+		}
+		for _, sx := range succs {
+			edges[[2]*ssa.BasicBlock{b, sx}] = true
+			walk(sx)
+		}
+	}
+	walk(head)
+	return out, edges
 }
 
 func regionOf(head *ssa.BasicBlock) []*ssa.BasicBlock {
@@ -544,11 +606,12 @@ func runOpSem(c *Ctx, r *Reporter) {
 			opcodeName[n] = k.Name()
 		}
 	}
-	vmCases := constCases(runSSA, func(v ssa.Value) bool {
+	isOpcodeTag := func(v ssa.Value) bool {
 		n := namedOf(v.Type())
 		_, isConst := v.(*ssa.Const)
 		return n != nil && n.Obj().Name() == "Opcode" && !isConst
-	})
+	}
+	vmCases := constCases(runSSA, isOpcodeTag)
 	if len(vmCases) < 20 {
 		r.Undecided("(*VM).Run: dispatch over Opcode not recognised (%d cases)", len(vmCases))
 		return
@@ -565,7 +628,8 @@ func runOpSem(c *Ctx, r *Reporter) {
 		n := 0
 		var pushes []*ssa.Call
 		straight := true
-		for _, b := range regionOf(head) {
+		blocksUnder, liveEdges := regionUnder(head, isOpcodeTag, k)
+		for _, b := range blocksUnder {
 			for _, ins := range b.Instrs {
 				call, ok := ins.(*ssa.Call)
 				if !ok {
@@ -598,7 +662,7 @@ func runOpSem(c *Ctx, r *Reporter) {
 		if !straight || len(pushes) != 1 || n == 0 || n > 2 {
 			continue // not an operator-shaped case (jumps, containers, range state)
 		}
-		tc := &opTermCtx{float: true, leaf: func(v ssa.Value) string {
+		tc := &opTermCtx{float: true, liveEdge: func(from, to *ssa.BasicBlock) bool { return liveEdges[[2]*ssa.BasicBlock{from, to}] }, leaf: func(v ssa.Value) string {
 			// conversions keep the identity of a popped operand
 			for {
 				switch x := v.(type) {
